@@ -657,7 +657,7 @@ theorem br_app (db : DB) (goal : MM.Term) (cfg : Cfg) (n : Nat) (labels : List L
   obtain ⟨m, rfl⟩ : ∃ m, n = m + 2 := ⟨n - 2, by omega⟩
   unfold Gen.XProof.br_pattern_constructors xApp
   simp only [ha, hi, show ((Lbl.appC == Lbl.appC) = true) from rfl, show ((Lbl.appC == Lbl.impC) = false) from rfl,
-    ofDB_axiom, ofDB_mio, ofDB_resolve, DB.assertion, Option.map_some, Option.getD_some, axiomRec, image]
+    ofDB_axiom, ofDB_mio, ofDB_resolve, DB.assertion, Option.map_some, Option.getD_some, axiomRec, image_var, image_imp, image_app]
   rcases mandOf_pair db hwf.nodup _ _ hwf.appNe hwf.appMem.1 hwf.appMem.2
       (.app (.var db.appArgs.1) (.var db.appArgs.2)) (by simp [Term.varsList, Term.vars]) with h | h
   · simp only [h, List.map, pyApp, patEq, peqF_app_phi, beq_self_eq_true, Bool.and_self, Option.map_some, cAnd, cPure, ifC,
@@ -671,7 +671,7 @@ theorem br_app (db : DB) (goal : MM.Term) (cfg : Cfg) (n : Nat) (labels : List L
     have hne2 : ¬ ([db.appArgs.2, db.appArgs.1] = [db.appArgs.1, db.appArgs.2]) := by
       intro e; simp only [List.cons.injEq, and_true] at e; exact hwf.appNe e.1.symm
     simp only [h, List.map, pyApp, patEq, peqF_app_phi, hne, Bool.false_and, Option.map_some, cAnd, cPure, ifC,
-      stackIdx_1, getAxiom, ofDB_axiom, DB.assertion, Option.map_some, axiomRec, image, ipattern, hne2, if_false]
+      stackIdx_1, getAxiom, ofDB_axiom, DB.assertion, Option.map_some, axiomRec, image_var, image_imp, image_app, ipattern, hne2, if_false]
     have hd : decide ((Term.varsList ([] ++ [(Term.var db.appArgs.fst).app (Term.var db.appArgs.snd)])).length > 0) = true := by
       simp [Term.varsList, Term.vars]
     have hk : db.deltaKeys [(Term.var db.appArgs.fst).app (Term.var db.appArgs.snd)] =
@@ -696,7 +696,7 @@ theorem br_imp (db : DB) (goal : MM.Term) (cfg : Cfg) (n : Nat) (labels : List L
   obtain ⟨m, rfl⟩ : ∃ m, n = m + 2 := ⟨n - 2, by omega⟩
   unfold Gen.XProof.br_pattern_constructors xImp
   simp only [ha, hi, show ((Lbl.impC == Lbl.appC) = false) from rfl, show ((Lbl.impC == Lbl.impC) = true) from rfl,
-    ofDB_axiom, ofDB_mio, ofDB_resolve, DB.assertion, Option.map_some, Option.getD_some, axiomRec, image]
+    ofDB_axiom, ofDB_mio, ofDB_resolve, DB.assertion, Option.map_some, Option.getD_some, axiomRec, image_var, image_imp, image_app]
   rcases mandOf_pair db hwf.nodup _ _ hwf.impNe hwf.impMem.1 hwf.impMem.2
       (.imp (.var db.impArgs.1) (.var db.impArgs.2)) (by simp [Term.varsList, Term.vars]) with h | h
   · simp only [h, List.map, pyImplies, patEq, peqF_imp_phi, beq_self_eq_true, Bool.and_self, Option.map_some, cAnd, cPure, ifC,
@@ -710,7 +710,7 @@ theorem br_imp (db : DB) (goal : MM.Term) (cfg : Cfg) (n : Nat) (labels : List L
     have hne2 : ¬ ([db.impArgs.2, db.impArgs.1] = [db.impArgs.1, db.impArgs.2]) := by
       intro e; simp only [List.cons.injEq, and_true] at e; exact hwf.impNe e.1.symm
     simp only [h, List.map, pyImplies, patEq, peqF_imp_phi, hne, Bool.false_and, Option.map_some, cAnd, cPure, ifC,
-      stackIdx_1, getAxiom, ofDB_axiom, DB.assertion, Option.map_some, axiomRec, image, ipattern, hne2, if_false]
+      stackIdx_1, getAxiom, ofDB_axiom, DB.assertion, Option.map_some, axiomRec, image_var, image_imp, image_app, ipattern, hne2, if_false]
     have hd : decide ((Term.varsList ([] ++ [(Term.var db.impArgs.fst).imp (Term.var db.impArgs.snd)])).length > 0) = true := by
       simp [Term.varsList, Term.vars]
     have hk : db.deltaKeys [(Term.var db.impArgs.fst).imp (Term.var db.impArgs.snd)] =
@@ -1170,7 +1170,7 @@ theorem br_p1 (db : DB) (goal : MM.Term) (cfg : Cfg) (n : Nat) (labels : List Lb
   have hrs : [db.p1.1, db.p1.2].Nodup := by simp [hwf.p1Ne]
   rw [prop_rule_eq db goal (m + 4) x .p1 "prop1" .prop1 prop1N [db.p1.1, db.p1.2]
     (.imp (.var db.p1.1) (.imp (.var db.p1.2) (.var db.p1.1))) (fun x => k x)
-    (fun _ => rfl) (fun _ => rfl) rfl (by simpa [image, rolesOf] using match_p1 m _ _) (by omega) hwf.nodup hrs
+    (fun _ => rfl) (fun _ => rfl) rfl (by simpa [image_var, image_imp, image_app, rolesOf] using match_p1 m _ _) (by omega) hwf.nodup hrs
     (by intro r hr; simp at hr; rcases hr with rfl | rfl; exact hwf.p1Mem.1; exact hwf.p1Mem.2)
     (by intro v; simp [Term.varsList, Term.vars]; constructor
         · rintro (h | h | h) <;> simp [h]
@@ -1191,7 +1191,7 @@ theorem br_p2 (db : DB) (goal : MM.Term) (cfg : Cfg) (n : Nat) (labels : List Lb
   rw [prop_rule_eq db goal (m + 5) x .p2 "prop2" .prop2 prop2N [db.p2.1, db.p2.2.1, db.p2.2.2]
     (.imp (.imp (.var db.p2.1) (.imp (.var db.p2.2.1) (.var db.p2.2.2)))
       (.imp (.imp (.var db.p2.1) (.var db.p2.2.1)) (.imp (.var db.p2.1) (.var db.p2.2.2)))) (fun x => k x)
-    (fun _ => rfl) (fun _ => rfl) rfl (by simpa [image, rolesOf] using match_p2 m _ _ _) (by omega) hwf.nodup hrs
+    (fun _ => rfl) (fun _ => rfl) rfl (by simpa [image_var, image_imp, image_app, rolesOf] using match_p2 m _ _ _) (by omega) hwf.nodup hrs
     (by intro r hr; simp at hr; rcases hr with rfl | rfl | rfl; exact hwf.p2Mem.1; exact hwf.p2Mem.2.1; exact hwf.p2Mem.2.2)
     (by intro v; simp [Term.varsList, Term.vars]; constructor
         · rintro (h | h | h | h | h | h | h) <;> simp [h]
